@@ -342,6 +342,7 @@ type verifFE struct {
 	labels     map[string]*Label
 	imports    map[string]string // source alias -> import path (nil: no imports)
 	importRefs map[string]PkgRef
+	onExpr     func(e ast.Expr, el *Element) // called with every value expression built (C03)
 }
 
 func (fe *verifFE) lookup(name string) types.Object {
@@ -402,6 +403,15 @@ func verifTwoValued(e ast.Expr) bool {
 }
 
 func (fe *verifFE) expr(e ast.Expr, two bool) {
+	fe.expr1(e, two)
+	if fe.onExpr != nil && !two {
+		if _, isParen := e.(*ast.ParenExpr); !isParen && fe.cb.InternalStack().Len() > 0 {
+			fe.onExpr(e, fe.cb.Get(-1))
+		}
+	}
+}
+
+func (fe *verifFE) expr1(e ast.Expr, two bool) {
 	cb := fe.cb
 	lhs := 0
 	if two {
